@@ -38,6 +38,7 @@ package benchfmt
 //@              forall j int :: 1 <= j < len(parts[k]) ==> isdigit(parts[k][j]))
 //@   ensures forall j int :: 0 <= j < len(baseName) ==> n[j] != '/'
 //@   ensures (exists k int :: gomaxprocsAt(n, k)) <==> (len(parts) > 0 && parts[len(parts)-1][0] == '-')
+//@   ensures len(parts) > 0 && parts[len(parts)-1][0] == '-' ==> gomaxprocsAt(n, off(parts[len(parts)-1])-off(n))
 //@   ensures forall p int :: 0 <= p < len(n) && n[p] == '/' ==> exists k int :: 0 <= k < len(parts) && off(parts[k]) == off(n)+p
 //@   ensures forall k int, j int :: 0 <= k < len(parts) && 1 <= j < len(parts[k]) ==> parts[k][j] != '/'
 //@   loop 1:
